@@ -90,6 +90,10 @@ where
         pixel: [Self::Word; N],
         count: u32,
     ) -> Result<(), Self::Error> {
+        if count == 0 || N == 0 {
+            return Ok(());
+        }
+
         let fill_count = core::cmp::min(count, (self.buffer.len() / N) as u32);
         let filled_len = fill_count as usize * N;
         for chunk in self.buffer[..(filled_len)].chunks_exact_mut(N) {
